@@ -1,3 +1,5 @@
 import Proofs.Layout
+import Proofs.LayoutHeadings
 import Proofs.LayoutRoles
 import Proofs.Paginate
+import Proofs.Widths
